@@ -41,6 +41,15 @@ def delimStep (d : Nat) (buf : Bytes) (b : Nat) : Bytes × List Bytes :=
 def CR : Nat := 13
 def PKE : Nat := 69
 
+/-- what PKONE `_parse_msg` does with one frame: empty frames are dropped, `msg.decode()` raises on a frame that is not
+UTF-8 (known finding), everything else goes to the ignore list / `process_received_message` -/
+inductive PObs
+  | empty | undecodable | msg (f : Bytes)
+  deriving DecidableEq, Repr
+
+def pkDeliver (f : Bytes) : PObs :=
+  if f.isEmpty then .empty else if f.any (fun b => 128 ≤ b) then .undecodable else .msg f
+
 /-! ## OPP: transcription of `_parse_msg` -/
 
 /-- `(b & 0xe0) == 0x20` for a byte -/
@@ -354,6 +363,49 @@ def disciplined : WSt → List WOp → Bool
      | .enq _ => !s.flag && s.queue.isEmpty
      | _ => true) && disciplined (wStep s o) r
 
+/-! ## `send_and_wait_for_response_processed` as the code is
+
+The time-out of `asyncio.wait_for` guards `send_and_wait_for_response`, which returns as soon as the command has been
+handed to the send queue (after waiting for `no_response_waiting`); the response itself is awaited afterwards with
+`done_waiting.wait()` and no time-out. -/
+
+inductive RPhase
+  | gate        -- inside the retry loop, waiting for no_response_waiting
+  | waitDone    -- after the loop: `await done_waiting.wait()`
+  | finished
+  deriving DecidableEq, Repr
+
+structure RSt where
+  noResp : Bool := true      -- no_response_waiting
+  done : Bool := false       -- done_waiting
+  written : Nat := 0         -- times the command was handed to the writer
+  retries : Nat := 0
+  maxRetries : Nat := 0
+  phase : RPhase := .gate
+  deriving DecidableEq, Repr
+
+inductive ROp
+  | timeout     -- `timeout` seconds pass
+  | response    -- a response with a registered header is processed and calls done_processing_msg_response()
+  deriving DecidableEq, Repr
+
+/-- run the coroutine as far as it gets without waiting -/
+def rAdvance (s : RSt) : RSt :=
+  let s1 := if s.phase = .gate ∧ s.noResp then { s with noResp := false, written := s.written + 1, phase := .waitDone } else s
+  if s1.phase = .waitDone ∧ s1.done then { s1 with phase := .finished } else s1
+
+def rStep (s : RSt) : ROp → RSt
+  | .timeout =>
+    if s.phase = .gate ∧ ¬ s.noResp then
+      rAdvance (if s.retries + 1 > s.maxRetries then { s with retries := s.retries + 1, phase := .waitDone }
+                else { s with retries := s.retries + 1 })
+    else s
+  | .response => rAdvance { s with noResp := true, done := true }
+
+def rRun : RSt → List ROp → RSt
+  | s, [] => s
+  | s, o :: r => rRun (rStep s o) r
+
 /-! ## line-protocol driver -/
 
 def hexVal (c : Char) : Option Nat :=
@@ -406,6 +458,7 @@ structure DSt where
   auto : AMode := .idle
   plat : Plat := {}
   w : WSt := {}
+  r : RSt := {}
 
 def words (l : List String) : String := " ".intercalate l
 
@@ -413,6 +466,10 @@ def showW (w : WSt) : String :=
   "log=" ++ (if w.log.isEmpty then "-" else ",".intercalate (w.log.map toString)) ++
   " q=" ++ toString w.queue.length ++ " flag=" ++ (if w.flag then "1" else "0") ++
   " until=" ++ (match w.until_ with | some u => toHex u | none => "none")
+
+def showR (r : RSt) : String :=
+  "written=" ++ toString r.written ++ " fin=" ++ (if r.phase = .finished then "1" else "0") ++
+  " gate=" ++ (if r.noResp then "1" else "0")
 
 def driverStep (s : DSt) (line : String) : DSt × String :=
   match line.splitOn " " with
@@ -433,7 +490,8 @@ def driverStep (s : DSt) (line : String) : DSt × String :=
     match ofHex c with
     | some b =>
       let (buf, frames) := feed (delimStep PKE) s.pk b
-      ({ s with pk := buf }, words (frames.map (fun f => "m" ++ toHex f) ++ ["buf=" ++ toHex buf]))
+      ({ s with pk := buf }, words (frames.map (fun f => match pkDeliver f with
+          | .empty => "e" | .undecodable => "und" | .msg g => "m" ++ toHex g) ++ ["buf=" ++ toHex buf]))
     | none => (s, "bad-op")
   | ["card", kind, a] =>
     match a.toNat? with
@@ -476,6 +534,12 @@ def driverStep (s : DSt) (line : String) : DSt × String :=
     match ofHex h with
     | some hb => let w := wStep s.w (.recv hb); ({ s with w := w }, showW w)
     | none => (s, "bad-op")
+  | ["rstart", g, m] =>
+    match m.toNat? with
+    | some k => let r := rAdvance { noResp := g = "1", maxRetries := k }; ({ s with r := r }, showR r)
+    | none => (s, "bad-op")
+  | ["rtimeout"] => let r := rStep s.r .timeout; ({ s with r := r }, showR r)
+  | ["rresponse"] => let r := rStep s.r .response; ({ s with r := r }, showR r)
   | _ => (s, "bad-op")
 
 end MpfVerif.Framing
